@@ -13,6 +13,8 @@
 //! * an entry missing on a replica / in a different state          → `entry-missing`, `replicas-differ-state`
 //! * replicated attributes of a live (or recycled) entry differ     → `live-replicated-attrs-differ`  (no known finding: VIOLATION)
 //! * replicated attributes of an entry conflicted in place differ   → `conflict-entry-replicated-attrs-differ`
+//!   (only class / source_uuid, and one side was parked by `validate_repl`: its own uuid is among its
+//!   source uuids                                                    → `D45:schema-parked-conflict-not-replicated`)
 //! * a conflict *copy* lacks attributes the other replica has       → `D17:conflict-copy-attrs-missing`
 //!   (both present but different                                    → `conflict-copy-attrs-differ`)
 //! * derived attributes of a conflict entry / copy differ           → `D17:conflict-entry-derived-attrs-differ`
@@ -37,6 +39,7 @@ use serde_json::{json, Value as J};
 use std::collections::{BTreeMap, BTreeSet};
 
 const NAMES: [&str; 5] = ["c08na", "c08nb", "c08nc", "c08nd", "c08ne"];
+const CLASS_PARKED: &str = "D45:schema-parked-conflict-not-replicated";
 const MEMBERSHIP: [&str; 3] = ["memberof", "directmemberof", "dynmember"];
 
 // ---------------------------------------------------------------------------------------------
@@ -540,7 +543,15 @@ fn compare(d0: &Dump, ds: &Dump, s: usize) -> Vec<Finding> {
                     add("conflict-copy-attrs-differ", detail);
                 }
             } else if a.st == 'C' {
-                add("conflict-entry-replicated-attrs-differ", detail);
+                // parked by `validate_repl` (schema-invalid after the merge): class / source_uuid rewritten in
+                // place, the entry's own uuid among its source uuids, no new change cid
+                let own = u.to_string();
+                let parked = |e: &EDump| e.attrs.get("source_uuid").map(|v| v.contains(&own)).unwrap_or(false);
+                if rd.iter().all(|(n, _, _)| n == "class" || n == "source_uuid") && (parked(a) || parked(b)) {
+                    add(CLASS_PARKED, detail);
+                } else {
+                    add("conflict-entry-replicated-attrs-differ", detail);
+                }
             } else {
                 add("live-replicated-attrs-differ", detail);
             }
@@ -719,8 +730,36 @@ fn directed() -> Vec<(&'static str, usize, Vec<&'static str>)> {
         ("delete-vs-edit", 2, vec!["on 0 create 1 c08na", "on 0 create 5 c08nb", "on 0 addm 5 1", "repl 0 1", "on 0 delete 1", "on 1 desc 1 d1", "repl 1 0", "repl 0 1"]),
         ("three-replicas-chain", 3, vec!["on 0 create 1 c08na", "on 1 create 5 c08nb", "on 2 create 6 c08nc", "repl 0 1", "repl 1 2", "on 2 addm 5 1", "on 0 desc 1 d3", "repl 2 0", "on 1 addm 6 5", "repl 1 0"]),
         ("name-clash", 2, vec!["on 0 create 1 c08na", "on 1 create 2 c08na", "repl 0 1", "repl 1 0"]),
+        // validate_repl parks a merged entry that fails the schema without restamping what it rewrites
+        ("schema-parked-conflict", 2, vec!["on 0 create 8 c08nd", "on 1 create 2 c08nd", "repl 0 1", "on 0 delete 8", "repl 1 0"]),
         ("refresh-mid-history", 2, vec!["on 0 create 1 c08na", "on 1 create 5 c08nb", "refresh 0 1", "on 1 desc 1 d1", "repl 1 0"]),
     ]
+}
+
+/// Small scope, exhaustively: two replicas, up to three operations on one group from six (create on
+/// either side under different names, description on either side, delete on either side), every choice
+/// of {nothing, repl 0→1, repl 1→0} after the first and after the second operation.
+fn exhaustive() -> Vec<Vec<Step>> {
+    let alpha = ["on 0 create 5 c08na", "on 1 create 5 c08nb", "on 0 desc 5 d0", "on 1 desc 5 d1", "on 0 delete 5", "on 1 delete 5"];
+    let slots = ["", "repl 0 1", "repl 1 0"];
+    let mut out = vec![];
+    for a in alpha {
+        for b in alpha {
+            for s1 in slots {
+                let mut two = vec![a, s1, b];
+                two.retain(|x| !x.is_empty());
+                out.push(two.iter().map(|t| Step::parse(t)).collect());
+                for c in alpha {
+                    for s2 in slots {
+                        let mut three = vec![a, s1, b, s2, c];
+                        three.retain(|x| !x.is_empty());
+                        out.push(three.iter().map(|t| Step::parse(t)).collect());
+                    }
+                }
+            }
+        }
+    }
+    out
 }
 
 // ---------------------------------------------------------------------------------------------
@@ -792,7 +831,7 @@ fn run_case(drv: &mut Driver, rep: &mut Report, g: &mut Global, prefix: &str, n:
         let mut cur: Vec<Step> = steps[..upto.min(steps.len())].to_vec();
         let (mut expected, mut observed) = (expected, observed);
         // known-finding strata have minimal directed witnesses; search effort goes to everything else
-        if shrink && seen < 1 && !class.starts_with("D17:") {
+        if shrink && seen < 1 && !class.starts_with("D17:") && class != CLASS_PARKED {
             let has = |o: &Outcome| -> Option<(String, String)> {
                 if let Some(h) = &o.hard {
                     if h.class == class { return Some((h.expected.clone(), format!("step {}: {}", h.step, h.observed))); }
@@ -886,12 +925,23 @@ fn main() {
     }
     let n_two = args.cases(26, 520);
     let n_three = args.cases(14, 280);
+    // the exhaustive small scope: all of it in the thorough tier, a seed-dependent sample otherwise
+    let exh_all = exhaustive();
+    let exh: Vec<Vec<Step>> = if args.thorough() || args.budget > 1 {
+        exh_all
+    } else {
+        let mut r = Rng::for_case(args.seed, 9_000_000);
+        (0..12).map(|_| exh_all[r.below(exh_all.len() as u64) as usize].clone()).collect()
+    };
+    let n_exh = exh.len() as u64;
     let parts: u64 = 4;
     let mut jobs: Vec<(usize, u64, u64)> = vec![];
     for k in 0..parts {
         jobs.push((2, n_two * k / parts, n_two * (k + 1) / parts));
         jobs.push((3, n_three * k / parts, n_three * (k + 1) / parts));
+        jobs.push((0, n_exh * k / parts, n_exh * (k + 1) / parts));
     }
+    let exh_ref = &exh;
     let results: Vec<Report> = std::thread::scope(|sc| {
         let handles: Vec<_> = jobs
             .iter()
@@ -902,6 +952,10 @@ fn main() {
                     let mut drv = Driver::spawn(&a.driver);
                     let mut g = Global { reported: BTreeMap::new() };
                     for c in *from..*to {
+                        if *n == 0 {
+                            run_case(&mut drv, &mut rep, &mut g, "exh2", 2, &exh_ref[c as usize], false);
+                            continue;
+                        }
                         let mut r = Rng::for_case(a.seed, (*n as u64) * 1_000_000 + c);
                         let steps = gen_history(&mut r, *n, c % 3 == 0);
                         run_case(&mut drv, &mut rep, &mut g, if *n == 2 { "repl2" } else { "repl3" }, *n, &steps, true);
